@@ -70,6 +70,7 @@ type kase struct {
 	Wid       string         `json:"wid,omitempty"`
 	Ignore    bool           `json:"ignore"`
 	Rollback  []string       `json:"rollback"`
+	Fail      int            `json:"fail"` // >= 0: the (Fail+1)-th Lock call of the case fails (injected)
 	Impl      map[string]any `json:"impl"`
 }
 
@@ -85,6 +86,18 @@ type recorder struct {
 	events []event
 	held   int
 	last   time.Time
+	calls  int // Lock calls so far in this case
+	failAt int // inject a failure into that call (-1: never)
+}
+
+var errInjected = fmt.Errorf("injected lock failure")
+
+func (r *recorder) shouldFail() bool {
+	r.mu.Lock()
+	defer r.mu.Unlock()
+	n := r.calls
+	r.calls++
+	return r.failAt >= 0 && n == r.failAt
 }
 
 func (r *recorder) add(op, key string) {
@@ -101,7 +114,7 @@ func (r *recorder) add(op, key string) {
 
 func (r *recorder) reset() {
 	r.mu.Lock()
-	r.events, r.held, r.last = nil, 0, time.Now()
+	r.events, r.held, r.last, r.calls, r.failAt = nil, 0, time.Now(), 0, -1
 	r.mu.Unlock()
 }
 
@@ -148,6 +161,9 @@ func (s *recStore) CreateLock(key string, ttl time.Duration) (lock.DistributedLo
 }
 
 func (l *recLock) Lock(ctx context.Context) (context.Context, error) {
+	if l.rec.shouldFail() {
+		return nil, errInjected
+	}
 	rctx, err := l.DistributedLock.Lock(ctx)
 	if err == nil {
 		l.held = true
@@ -315,6 +331,16 @@ func (f nfilter) real() *types.NodeFilter {
 
 // ---------------------------------------------------------------- running a case
 func (e *env) run(k *kase) {
+	if k.Kind == "nesting-scan" || k.Op == "nesting" {
+		k.Op = "nesting"
+		sites, err := scanNesting("/repo/cluster/calcium")
+		if err != nil {
+			k.Impl = map[string]any{"err": err.Error()}
+			return
+		}
+		k.Impl = map[string]any{"sites": sites}
+		return
+	}
 	e.wipe()
 	s := e.use(k.Backend)
 	if err := e.populate(s, k); err != nil {
@@ -322,6 +348,7 @@ func (e *env) run(k *kase) {
 		return
 	}
 	e.rec.reset()
+	e.rec.failAt = k.Fail
 	ctx := context.Background()
 	if k.Op == "filter" {
 		var ns []*types.Node
@@ -498,7 +525,7 @@ func genIDs(r *hx.Rng, k *kase) []string {
 }
 
 func genLocks(r *hx.Rng, k *kase) {
-	k.Op, k.Backend = "locks", "etcd"
+	k.Op, k.Backend, k.Fail = "locks", "etcd", -1
 	k.IDs, k.Rollback = []string{}, []string{}
 	k.NF = nfilter{Inc: []string{}, Exc: []string{}, Labels: map[string]string{}}
 	kinds := []string{"create", "capacity", "removepod", "node", "node", "remove", "remove", "realloc", "each", "each", "remap", "nodespod", "nodespod", "nodesop", "workloads", "workloads"}
@@ -530,12 +557,18 @@ func genLocks(r *hx.Rng, k *kase) {
 		k.IDs = genIDs(r, k)
 		k.Ignore = r.Chance(15)
 	}
+	switch k.Kind { // a failing acquisition at every position (single-episode kinds only)
+	case "create", "capacity", "removepod", "node", "nodespod", "nodesop", "workloads":
+		if r.Chance(22) {
+			k.Fail = r.Intn(4)
+		}
+	}
 }
 
 func corpus() []*kase {
 	two := []node{{N: "n1", Pod: "pa", Labels: map[string]string{}, Up: true, Test: true}, {N: "n2", Pod: "pb", Labels: map[string]string{}, Up: true, Test: true}}
 	mk := func(op, kind string, inc []string) *kase {
-		return &kase{Op: op, Backend: "etcd", Kind: kind, Nodes: two, Workloads: []wl{}, IDs: []string{}, Rollback: []string{},
+		return &kase{Op: op, Backend: "etcd", Kind: kind, Fail: -1, Nodes: two, Workloads: []wl{}, IDs: []string{}, Rollback: []string{},
 			NF: nfilter{Inc: inc, Exc: []string{}, Labels: map[string]string{}}}
 	}
 	return []*kase{
@@ -544,6 +577,8 @@ func corpus() []*kase {
 		mk("locks", "nodespod", []string{"n1", "n2"}), // D10: plock_pa,plock_pb ...
 		mk("locks", "nodespod", []string{"n2", "n1"}), // ... vs plock_pb,plock_pa
 		mk("locks", "create", []string{"n2", "n1", "n2"}),
+		{Op: "locks", Kind: "nesting-scan", Backend: "etcd", Fail: -1, Nodes: []node{}, Workloads: []wl{}, IDs: []string{}, Rollback: []string{},
+			NF: nfilter{Inc: []string{}, Exc: []string{}, Labels: map[string]string{}}},
 	}
 }
 
@@ -561,7 +596,7 @@ func TestGen(t *testing.T) {
 	}
 	id := 0
 	emit := func(k *kase) {
-		if k.Op != want {
+		if k.Op != want && !(want == "locks" && k.Op == "nesting") {
 			return
 		}
 		k.ID = fmt.Sprintf("s%d-%d", seed, id)
@@ -590,7 +625,7 @@ func TestGen(t *testing.T) {
 		emit(k)
 	}
 	for i := 0; i < n; i++ {
-		k := &kase{Workloads: []wl{}}
+		k := &kase{Workloads: []wl{}, Fail: -1}
 		genWorld(r, k)
 		if want == "filter" {
 			k.Op = "filter"
